@@ -42,9 +42,28 @@ func runC12(opt *Options) int {
 	}
 	lbres := lb.run()
 	lbrc := lb.finish(lbres, "translation_validation", nil)
-	rc := lr.finish(lr.run(), map[string]interface{}{"layer_b_sibling_family": lb.LastCov})
-	if rc == 0 {
+	// second leg: skipCopySameType written on one method only (value pass-through and sharing obligations)
+	sb := lbBounds(opt)
+	sb.MaxSlice = 1
+	lb2 := &lbRun{
+		Opt:        opt,
+		Convs:      layerb.FamilySiblingSkip(opt.Thorough()),
+		Check:      layerb.CheckValueAndSharing,
+		EOpt:       layerb.ExploreOpt{Alias: true, TrackWrites: true},
+		Bounds:     sb,
+		Rule:       lbRule,
+		Assume:     lbAssume,
+		NoEvidence: true,
+	}
+	lb2.CaseBase = 200
+	lb2rc := lb2.finish(lb2.run(), "translation_validation", nil)
+	lr.CaseBase = 500
+	rc := lr.finish(lr.run(), map[string]interface{}{"layer_b_sibling_family": lb.LastCov, "layer_b_sibling_skipcopy_family": lb2.LastCov})
+	if rc == 0 && lbrc != 0 {
 		return lbrc
+	}
+	if rc == 0 {
+		return lb2rc
 	}
 	return rc
 }
